@@ -669,6 +669,19 @@ fn run_case(case: &Value, rep: &mut Report, trace_out: &mut Vec<String>, settle_
                     o.gate.take();
                     o.token.take();
                 }
+                // a pool thread releases its reference (and the completed channel) a few instructions after
+                // its `blocking.done` hook: give every allocated operation up to 5 s to be released before
+                // the run is declared finished (a leak is what is still there after that)
+                let t0 = Instant::now();
+                loop {
+                    let evs = rec::since(0);
+                    let allocs = evs.iter().filter(|e| e.site == "op.alloc").count();
+                    let frees = evs.iter().filter(|e| e.site == "op.free").count();
+                    if frees >= allocs || t0.elapsed() > Duration::from_secs(5) {
+                        break;
+                    }
+                    std::thread::sleep(Duration::from_millis(1));
+                }
                 hev("h.hend", 0, 0);
             }
             a => panic!("unknown action {a}"),
